@@ -337,11 +337,20 @@ void run_chain(char const* desc, Tags tags, std::vector<std::vector<X>> const& l
     double total = 1;
     for (auto const& l : leafsets) total *= (double)l.size();
     long cases = total <= (double)budget ? (long)total : budget;
+    // when the full product is too large: first the full product of the boundary leaves (0, +-1, +-2, limits -+ 0..2, halves: the
+    // first 15 values of leaves<>()), so that every pairing of adjacent limits is met, then the sweep
+    long bprod = 1;
+    std::vector<long> nb(n);
+    for (size_t i = 0; i < n; ++i) { nb[i] = (long)std::min<size_t>(15, leafsets[i].size()); bprod *= nb[i]; }
+    if (total <= (double)budget || bprod > budget / 2) bprod = 0;
     for (long k = 0; k < cases && !t.closed; ++k) {
         std::vector<X> xs(n);
         if (total <= (double)budget) {
             long r = k;
             for (size_t i = 0; i < n; ++i) { xs[i] = leafsets[i][(size_t)(r % (long)leafsets[i].size())]; r /= (long)leafsets[i].size(); }
+        } else if (k < bprod) {
+            long r = k;
+            for (size_t i = 0; i < n; ++i) { xs[i] = leafsets[i][(size_t)(r % nb[i])]; r /= nb[i]; }
         } else {
             for (size_t i = 0; i < n; ++i) xs[i] = leafsets[i][(size_t)rng.below(leafsets[i].size())];
             size_t pin = (size_t)k % n;  // sweep one operand systematically
